@@ -298,6 +298,9 @@ def run_one(tape, cfg):
     out.abstract = tuple(abstract)
     out.nontrivial = len(hist) >= 3 and (depth_seen >= 2 or nfail >= 1)
     out.policy = "global" if use_global else "private"
+    if nfail:
+        out.faults["set_call_fails_part_way"] = nfail
+        out.klass = "faulted"
     return out
 
 
